@@ -1,6 +1,7 @@
 package props
 
 import (
+	"crypto/sha256"
 	"fmt"
 	"hash/fnv"
 	"os"
@@ -34,6 +35,12 @@ func tierN(tier string, quick, thorough int) int {
 
 // savedPackages serialises the document through both entry points and returns what was produced.
 func savedPackages(res *core.Result, d *document.Document, workDir string, tag string) (pkgs []*opc.Package, raw [][]byte) {
+	pkgs, raw, _ = savedPackagesHeld(res, d, workDir, tag)
+	return
+}
+
+// savedPackagesHeld additionally returns the slice ToBytes handed out (nil if it failed): it belongs to the caller from then on.
+func savedPackagesHeld(res *core.Result, d *document.Document, workDir string, tag string) (pkgs []*opc.Package, raw [][]byte, held []byte) {
 	var b []byte
 	var err error
 	if c := core.Catch(func() { b, err = d.ToBytes() }); c != nil {
@@ -44,6 +51,7 @@ func savedPackages(res *core.Result, d *document.Document, workDir string, tag s
 	if err == nil {
 		pkgs = append(pkgs, opc.Read(b))
 		raw = append(raw, b)
+		held = b
 		res.Count("packages_tobytes", 1)
 	} else {
 		res.Count("tobytes_errors", 1)
@@ -101,6 +109,39 @@ func tail(xs []string, n int) []string {
 	return xs
 }
 
+// heldOutputs: byte slices ToBytes returned during a case. They are the caller's: at the end of the case, after all later library
+// calls, each must still be the package it was when it was returned.
+type heldOutputs struct {
+	items []heldOutput
+}
+
+type heldOutput struct {
+	b   []byte
+	sum [32]byte
+	at  string
+}
+
+func (h *heldOutputs) keep(b []byte, at string) {
+	if b != nil {
+		h.items = append(h.items, heldOutput{b, sha256.Sum256(b), at})
+	}
+}
+
+func (h *heldOutputs) recheck(res *core.Result, rules func(*opc.Package) []opc.Problem, note string) {
+	for _, it := range h.items {
+		res.Count("held_outputs_rechecked", 1)
+		if sha256.Sum256(it.b) == it.sum {
+			continue
+		}
+		key := "held-output/changed-by-later-calls"
+		if probs := rules(opc.Read(it.b)); len(probs) > 0 {
+			key = "held-output/" + probs[0].Key
+		}
+		res.Add(key, "the bytes returned by ToBytes ("+it.at+") were modified by later library calls: the caller's package is no longer what it was given", note)
+		return
+	}
+}
+
 // scriptCase runs one generated script and applies the chosen package rules to everything it saves.
 func scriptCase(c *core.Ctx, hostile bool, maxOps int, weights map[string]int, rules func(*opc.Package) []opc.Problem, minKinds int) *core.Result {
 	res := &core.Result{}
@@ -110,6 +151,7 @@ func scriptCase(c *core.Ctx, hostile bool, maxOps int, weights map[string]int, r
 	s := NewScript(r, hostile, c.WorkDir)
 	s.Weights = weights
 	n := r.Range(4, maxOps)
+	held := &heldOutputs{}
 	// intermediate saves: split the script in up to three segments
 	segs := r.Range(1, 3)
 	for k := 0; k < segs && s.Panic == nil; k++ {
@@ -117,13 +159,15 @@ func scriptCase(c *core.Ctx, hostile bool, maxOps int, weights map[string]int, r
 		if s.Panic != nil {
 			break
 		}
-		pkgs, _ := savedPackages(res, s.Doc, c.WorkDir, fmt.Sprintf("c%d-%d", c.Case, k))
+		pkgs, _, hb := savedPackagesHeld(res, s.Doc, c.WorkDir, fmt.Sprintf("c%d-%d", c.Case, k))
+		held.keep(hb, fmt.Sprintf("save %d", k+1))
 		for _, p := range pkgs {
 			addProblems(res, rules(p), "ops: "+strings.Join(tail(s.Log, 25), " "))
 			statsOf(res, p)
 		}
 		checkExtras(c, s, res, rules, k)
 	}
+	held.recheck(res, rules, "ops: "+strings.Join(tail(s.Log, 25), " "))
 	res.Count("api_calls", int64(len(s.Log)))
 	res.Count("reopens", int64(s.Reopens))
 	res.Count("template_renders", int64(s.Renders))
@@ -344,13 +388,15 @@ func scriptCaseWithHook(c *core.Ctx, hostile bool, maxOps int, weights map[strin
 	s.Weights = weights
 	n := r.Range(4, maxOps)
 	segs := r.Range(1, 3)
+	held := &heldOutputs{}
 	for k := 0; k < segs && s.Panic == nil; k++ {
 		s.Run(n/segs+1, nil)
 		if s.Panic != nil {
 			break
 		}
 		s.Kinds["__saves"]++
-		pkgs, _ := savedPackages(res, s.Doc, c.WorkDir, fmt.Sprintf("c%d-%d", c.Case, k))
+		pkgs, _, hb := savedPackagesHeld(res, s.Doc, c.WorkDir, fmt.Sprintf("c%d-%d", c.Case, k))
+		held.keep(hb, fmt.Sprintf("save %d", k+1))
 		for _, p := range pkgs {
 			addProblems(res, rules(p), "ops: "+strings.Join(tail(s.Log, 25), " "))
 			statsOf(res, p)
@@ -359,6 +405,7 @@ func scriptCaseWithHook(c *core.Ctx, hostile bool, maxOps int, weights map[strin
 		checkExtras(c, s, res, rules, k)
 	}
 	delete(s.Kinds, "__saves")
+	held.recheck(res, rules, "ops: "+strings.Join(tail(s.Log, 25), " "))
 	res.Count("api_calls", int64(len(s.Log)))
 	res.Count("reopens", int64(s.Reopens))
 	if s.Panic != nil {
